@@ -163,6 +163,10 @@ fn walk_node(
 
 impl Prop for C08 {
     type Case = FwCase;
+    fn admissible(case: &FwCase) -> bool {
+        crate::props::fw_admissible(case) && case.machines.iter().all(|m| m.all_dists_constant())
+    }
+
     const ID: &'static str = "C08";
     const RULE: &'static str = "case = 1..=3 machines (<=4 states) with counter specifications on most states (3 operations x {unit, constant-sampled incl. 0, fractional, 2^64-2048, 2^64, 1e30, copy}) on both counters, CounterZero transitions that update counters again / re-enter the origin / schedule actions, several machines zeroing counters in the same call x histories with batches x scripted/seeded stream. Oracle = u128 counter model driven by the step log; predicts every CounterZero delivery and the final register values. Non-trivial: a call with a CounterZero delivery, a saturation event or a copy. Distinct = hash of the case.";
 
